@@ -159,14 +159,14 @@ theorem C03_codec_never_reads_outside_partial (nS nM : Nat) (ts : List Node) (hl
 linear fragment, terminated by `FINISH`, stream shorter than 64 KiB; `Codec.encL` = the structured
 encoder of `C02_convert_structured_eq`) -/
 theorem C03_codec_never_reads_outside_loops_partial (nS nM : Nat) (ts : List Node) (hl : linL ts = true)
-    (farg : Nat) :
+    (hk : brkOkL false ts = true) (hnc : noCallL ts = true) (farg : Nat) :
     ∃ e', encL nS nM ts {} = .ok e' ∧
       (e'.out.length + 1 < 65536 →
         convertTrack nS nM (flatL ts ++ [⟨mds_FINISH, farg⟩]) = .ok (e'.out ++ [mds_FINISH]) ∧
         ∀ (base mj maxTicks fuel : Nat) (ln lr : Option Nat),
           (run (e'.out ++ [mds_FINISH]) base mj maxTicks fuel { pc := 0, lastNote := ln, lastRest := lr }).2 ∈
             [Stop.finished, Stop.fuel, Stop.tooManyTicks]) := by
-  obtain ⟨e', h1, h2⟩ := codec_roundtrip_loops nS nM ts hl farg
+  obtain ⟨e', h1, h2⟩ := codec_roundtrip_loops nS nM ts hl hk hnc farg
   exact ⟨e', h1, fun hb => ⟨(h2 hb).1, fun base mj maxTicks fuel ln lr => ((h2 hb).2 base mj ln lr).safe maxTicks fuel⟩⟩
 
 /-- the same for a looping track `a ++ [SEGNO] ++ b ++ [JUMP]` (`a`, `b` linear, stream < 64 KiB),
@@ -213,19 +213,22 @@ theorem C03_stream_terminated_segno_partial (nS nM : Nat) (a b : List MEv) (ha :
 /-- the same for counted loops with and without break, nested (leaves linear, `FINISH` last, stream
 < 64 KiB): loop starts and ends are balanced and every back-patched break offset lands on the
 instruction after its loop end (that is what the walker checks) -/
-theorem C03_stream_terminated_loops_partial (nS nM : Nat) (ts : List Node) (hl : linL ts = true) (farg : Nat) :
+theorem C03_stream_terminated_loops_partial (nS nM : Nat) (ts : List Node) (hl : linL ts = true)
+    (hk : brkOkL false ts = true) (farg : Nat) :
     ∃ e', encL nS nM ts {} = .ok e' ∧
       (e'.out.length + 1 < 65536 →
         convertTrack nS nM (flatL ts ++ [⟨mds_FINISH, farg⟩]) = .ok (e'.out ++ [mds_FINISH]) ∧
         ∀ fuel, fuel ≥ e'.out.length + 1 →
           SeqWf.walk (e'.out ++ [mds_FINISH]) 0 fuel { pc := 0 } = .ok (e'.out.length + 1)) :=
-  walk_accepts_loops nS nM ts hl farg
+  walk_accepts_loops nS nM ts hl hk farg
 
 /-- **The general single track** `ta, SEGNO, tb, JUMP` (bracket structures with nested counted loops
-with and without break over the linear fragment; loop point at depth 0; stream < 64 KiB): the
-walker accepts the stream and the interpreter never reads outside / meets an unknown opcode / a
-missing length / an empty loop stack, however often the jump is followed. -/
+with any number of breaks per loop over the linear fragment — further break markers `Node.xbrk` only
+behind a first break of their own loop, `brkOkL false`; no calls; loop point at depth 0; stream
+< 64 KiB): the walker accepts the stream and the interpreter never reads outside / meets an unknown
+opcode / a missing length / an empty loop stack, however often the jump is followed. -/
 theorem C03_track_wellformed_partial (nS nM : Nat) (ta tb : List Node) (ha : linL ta = true) (hb : linL tb = true)
+    (ka : brkOkL false ta = true) (kb : brkOkL false tb = true) (na : noCallL ta = true) (nb : noCallL tb = true)
     (jarg : Nat) :
     ∃ eA eB, encL nS nM ta {} = .ok eA ∧ encL nS nM tb (afterSegno eA) = .ok eB ∧
       ((trackBytes eB).length < 65536 →
@@ -235,14 +238,37 @@ theorem C03_track_wellformed_partial (nS nM : Nat) (ta tb : List Node) (ha : lin
         ∀ (base mj maxTicks fuel : Nat) (ln lr : Option Nat),
           (run (trackBytes eB) base mj maxTicks fuel { pc := 0, lastNote := ln, lastRest := lr }).2 ∈
             [Stop.finished, Stop.fuel, Stop.tooManyTicks]) := by
-  obtain ⟨eA, eB, hA, hB, h⟩ := codec_roundtrip_track nS nM ta tb ha hb jarg
-  obtain ⟨eA', eB', hA', hB', h'⟩ := walk_accepts_track nS nM ta tb ha hb jarg
+  obtain ⟨eA, eB, hA, hB, h⟩ := codec_roundtrip_track nS nM ta tb ha hb ka kb na nb jarg
+  obtain ⟨eA', eB', hA', hB', h'⟩ := walk_accepts_track nS nM ta tb ha hb ka kb jarg
   rw [hA] at hA'; injection hA' with hA'; subst hA'
   rw [hB] at hB'; injection hB' with hB'; subst hB'
   exact ⟨eA, eB, hA, hB, fun hlen => ⟨(h hlen).1, (h' hlen).2,
     fun base mj maxTicks fuel ln lr => ((h hlen).2 base mj ln lr).safe maxTicks fuel⟩⟩
 
+/-- **Streams inside a chunk, subroutine calls included** (the three shapes of a channel track and
+the subroutine stream, at offset `pre.length` of `seq`, walked from their first byte as
+`SeqWf.checkAll` does): the walker accepts — every instruction is decoded inside the chunk, loop
+starts and ends are balanced, every break offset lands behind its loop end, the terminator is
+reached at loop depth 0, and (shape J, chunk up to the end of the stream < 64 KiB) the loop-back
+jump lands on an instruction boundary of this stream at loop depth 0.  The walker steps over a
+call instruction, so nothing is assumed about the pointer table. -/
+theorem C03_stream_at_offset_wellformed_partial (nS nM : Nat) (ta tb : List Node) (ha : linL ta = true)
+    (hb : linL tb = true) (eA eB : Enc) (hA : encL nS nM ta {} = .ok eA) (hB : encL nS nM tb (afterSegno eA) = .ok eB)
+    (pre seq : List Nat) :
+    (pre ++ trackBytes eB <+: seq → (pre ++ trackBytes eB).length < 65536 →
+      ∀ fuel, fuel ≥ (trackBytes eB).length →
+        SeqWf.walk seq pre.length fuel { pc := pre.length } = .ok (pre.length + (trackBytes eB).length)) ∧
+    (∀ start, pre ++ (eB.out ++ [mds_FINISH]) <+: seq → ∀ fuel, fuel ≥ eB.out.length + 1 →
+        SeqWf.walk seq start fuel { pc := pre.length } = .ok (pre.length + eB.out.length + 1)) ∧
+    (∀ start, pre ++ (eA.out ++ [mds_FINISH]) <+: seq → ∀ fuel, fuel ≥ eA.out.length + 1 →
+        SeqWf.walk seq start fuel { pc := pre.length } = .ok (pre.length + eA.out.length + 1)) :=
+  ⟨fun hp hlen => walk_j_at nS nM ta tb ha hb eA eB hA hB pre seq hp hlen,
+   fun start hp => walk_z_at nS nM ta tb ha hb eA eB hA hB pre seq start hp,
+   fun start hp => walk_f_at nS nM ta ha eA hA pre seq start hp⟩
+
 example : ∃ bytes, convertTrack 0 0 ([⟨0xa6, 24⟩] ++ [⟨mds_JUMP, 0⟩]) = .ok bytes := ⟨_, rfl⟩
+example : linL [.loopB [.ev ⟨0xa6, 2⟩] [.xbrk, .call 0 []] 2] = true ∧
+    brkOkL false [.loopB [.ev ⟨0xa6, 2⟩] [.xbrk, .call 0 []] 2] = true := by decide
 example : linL [.loop [.ev ⟨0xa6, 24⟩] 2] = true ∧ noBreakL [.loop [.ev ⟨0xa6, 24⟩] 2] = true := by decide
 
 end Ctrmml.C03
